@@ -156,7 +156,7 @@ class Histories(Stream):
             ops = []
             for _ in range(rng.randint(6, 18)):
                 op = rng.choice(["fetch", "fetch", "fetch_track", "diff", "extract", "format", "clone", "show", "arg", "pickle", "deepcopy",
-                                 "shallow_edit", "result_edit", "deep_edit", "resolve", "repeat", "repeat", "parse_reg"])
+                                 "shallow_edit", "result_edit", "deep_edit", "resolve", "repeat", "repeat", "parse_reg", "include_scope", "fetch_other", "fetch_track"])
                 ops.append([op, rng.randrange(1 << 30)])
             yield {"master": master, "sources": sources, "ops": ops}
 
@@ -172,14 +172,26 @@ class Histories(Stream):
                 sources.append(fp.parse(s))
             except Exception:  # noqa
                 pass
-        longlived = {"master": master}
+        # a second master (every part of the pool) that shares the source objects with the first one
+        master2 = fp.parse("".join(MASTER_PARTS))
+        longlived = {"master": master, "master2": master2}
         for i, s in enumerate(sources):
             longlived["source%d" % i] = s
         for o in longlived.values():
             mon.register(o)
 
+        def links(sc, prefix=""):
+            # full_path() of every object (walks the parent links) next to its position path, and whether each child points at its parent
+            out = []
+            for o in sc.objects:
+                here = prefix + o.name
+                out.append([here, o.full_path(), o.primary_parent_scope is sc])
+                if o.is_scope:
+                    out.extend(links(o, here + "."))
+            return out
+
         def snap():
-            return {k: [v.as_str(attributes_level=3), json.dumps(canon(objs_sx(v)))] for k, v in longlived.items()}
+            return {k: [v.as_str(attributes_level=3), json.dumps(canon(objs_sx(v))), json.dumps(links(v))] for k, v in longlived.items()}
         base = snap()
         problems = []
         done = []   # (description, thunk, first result)
@@ -211,6 +223,13 @@ class Histories(Stream):
                     r = run(op, f)
                     if op == "fetch" and r[0] == "ok":
                         last_fetch = sub
+                elif op == "fetch_other":
+                    # the same source objects merged (with tracking) into ANOTHER master: must not influence later calls with the first
+                    sub = [s for s in sources if rr.random() < 0.7] or sources[:1]
+                    def f(sub=sub):
+                        r, u = master2.fetch(sources=sub, track_unused_definitions=True)
+                        return json.dumps([canon(objs_sx(r)), [str(x) for x in u]])
+                    run(op, f)
                 elif op == "extract":
                     run(op, lambda lf=last_fetch: json.dumps(dump_extract(master.fetch(sources=lf or []).extract())))
                 elif op == "format":
@@ -271,6 +290,21 @@ class Histories(Stream):
                     if r[0] == "ok":
                         for o in r[1].objects[:3]:
                             self.assign_fields(o, rr)
+                elif op == "include_scope":
+                    # the long-lived master spliced into another document by 'include scope' (twice, at two depths): the
+                    # Python-level scope that is included must stay as it was (parent links and full paths included)
+                    def f():
+                        import sys as _sys, types as _types
+                        mod = _types.ModuleType("c17_shared_scope_mod")
+                        mod.master = master
+                        _sys.modules["c17_shared_scope_mod"] = mod
+                        try:
+                            return fp.parse(
+                                input_string="a {\n  include scope c17_shared_scope_mod.master\n}\nb {\n  c {\n    include scope c17_shared_scope_mod.master\n  }\n}\n",
+                                process_includes=True).as_str(attributes_level=3)
+                        finally:
+                            _sys.modules.pop("c17_shared_scope_mod", None)
+                    run(op, f)
                 elif op == "parse_reg":
                     # the same text parsed with one of two converter registries that bind one type name to different
                     # converters (and, half of the time, kept alive): the result depends on the arguments only
